@@ -67,7 +67,10 @@ func TestVerifC04ZrpcServer(t *testing.T) {
 			behaviour = "jitterReturn"
 		}
 		jn := rapid.IntRange(0, 60).Draw(t, "jitter")
-		callerMode := rapid.SampledFrom([]string{"none", "later", "earlier", "cancelDuring"}).Draw(t, "caller")
+		// the caller's context may also end with a CAUSE of its own (context.WithCancelCause /
+		// WithDeadlineCause): ctx.Err() is still Canceled / DeadlineExceeded, context.Cause(ctx) is the
+		// caller's error - the timeout result must not depend on it
+		callerMode := rapid.SampledFrom([]string{"none", "later", "earlier", "cancelDuring", "earlierCause", "cancelDuringCause"}).Draw(t, "caller")
 		if class != "small" && callerMode != "none" {
 			callerMode = "later"
 		}
@@ -85,6 +88,17 @@ func TestVerifC04ZrpcServer(t *testing.T) {
 			ctx, cancel = context.WithCancel(ctx)
 			d := time.Duration(rapid.IntRange(0, int(dt/time.Millisecond)).Draw(t, "cancelAfterMs")) * time.Millisecond
 			go func() { time.Sleep(d); cancel() }()
+		case "earlierCause":
+			callerDeadline = time.Now().Add(dt / 2)
+			ctx, cancel = context.WithDeadlineCause(ctx, callerDeadline, errors.New("caller's own deadline cause"))
+			st.Class("caller-context-with-cause")
+		case "cancelDuringCause":
+			var cc context.CancelCauseFunc
+			ctx, cc = context.WithCancelCause(ctx)
+			cancel = func() { cc(nil) }
+			d := time.Duration(rapid.IntRange(0, int(dt/time.Millisecond)).Draw(t, "cancelAfterMs")) * time.Millisecond
+			go func() { time.Sleep(d); cc(errors.New("caller's own cancel cause")) }()
+			st.Class("caller-context-with-cause")
 		}
 		defer cancel()
 		gate := make(chan struct{})
@@ -161,7 +175,7 @@ func TestVerifC04ZrpcServer(t *testing.T) {
 			}
 		}
 		isTimeoutErr := err != nil && got == nil && (status.Code(err) == codes.DeadlineExceeded || status.Code(err) == codes.Canceled)
-		if status.Code(err) == codes.Canceled && callerMode != "cancelDuring" {
+		if status.Code(err) == codes.Canceled && callerMode != "cancelDuring" && callerMode != "cancelDuringCause" {
 			isTimeoutErr = false
 		}
 		switch {
